@@ -207,6 +207,24 @@ fn c03() {
       if let Ok(t) = pb.build(&PasetoAsymmetricPrivateKey::<V4, Public>::from(k64)) { let pkk = lkv(PasetoAsymmetricPublicKey::<V4, Public>::from(k32));
         for (what, t2) in [("leading space", format!(" {t}")), ("trailing newline", format!("{t}\n")), ("trailing space", format!("{t} "))] {
           if PasetoParser::<V4, Public>::default().parse(lk(&t2), pkk).is_ok() { return wit(format!("C03 PasetoParser<V4,Public> accepts an extended token ({what}): {t2:?}")); } } } }
+    // parser layers: every altered token is refused with a cipher (authentication / format) error - never a JSON or claim error - whatever the footer looks like
+    { let key = lkv(PasetoSymmetricKey::<V4, Local>::from(key32(1)));
+      for f in [Some("{\"kid\":\"k1\"}"), Some("[1,2]"), Some("ft"), None] {
+        let mut b = GenericBuilder::<V4, Local>::default(); b.set_claim(SubjectClaim::from("alice")); if let Some(f) = f { b.set_footer(Footer::from(f)); }
+        let t = match b.try_encrypt(key) { Ok(t) => t, Err(_) => continue };
+        let mut alts = tampered(&t);
+        let seg: Vec<&str> = t.split('.').collect(); let base = seg[..3].join(".");
+        for nf in ["{\"kid\":\"k2\"}", "{\"kid\":", "{", "{}", "{\"kid\":\"k1\"} ", "[1,2", "\"", "{\"a\":{\"a\":{\"a\":{\"a\":{\"a\":{\"a\":{\"a\":{\"a\":{\"a\":{\"a\":1}}}}}}}}}}"] { if Some(nf) != f { alts.push((format!("footer segment replaced by the encoding of {nf:?}"), format!("{base}.{}", R::b64(nf.as_bytes())))); } }
+        for (what, t2) in alts { if t2 == t || t2 == format!("{t}.") || t == format!("{t2}.") { continue; } let t2 = lk(&t2);
+          for layer in 0..2 {
+            let r: Result<(), String> = if layer == 0 { let mut p = GenericParser::<V4, Local>::default(); if let Some(f) = f { p.set_footer(Footer::from(f)); }
+                  match p.parse(t2, key) { Ok(_) => Ok(()), Err(e) => Err(if matches!(e, GenericParserError::CipherError { .. }) { String::new() } else { format!("{e:?}") }) } }
+                else { let mut p = PasetoParser::<V4, Local>::default(); if let Some(f) = f { p.set_footer(Footer::from(f)); }
+                  match p.parse(t2, key) { Ok(_) => Ok(()), Err(e) => Err(if matches!(e, GenericParserError::CipherError { .. }) { String::new() } else { format!("{e:?}") }) } };
+            let name = if layer == 0 { "GenericParser" } else { "PasetoParser" };
+            match r { Ok(()) => return wit(format!("C03 {name}<V4,Local> (expected footer {f:?}) accepts an altered token ({what}): {t2}")),
+                      Err(e) if !e.is_empty() => return wit(format!("C03 {name}<V4,Local> (expected footer {f:?}) refuses an altered token ({what}) with {e} - not an authentication or format error, i.e. unauthenticated bytes were interpreted: {t2}")),
+                      _ => {} } } } } }
     public_tamper();
 }
 #[cfg(feature = "main_set")]
@@ -265,6 +283,22 @@ fn c04() {
         if let Ok(t2) = b2.try_sign(&PasetoAsymmetricPrivateKey::<V2, Public>::from(k64)) { let _ = Paseto::<V2, Public>::try_verify(&t2, &PasetoAsymmetricPublicKey::<V2, Public>::from(right), None);
             for byte in 0..32usize { let mut nb = pka; nb[byte] ^= 1; let nk = lkv(Key::<32>::from(nb));
                 if Paseto::<V2, Public>::try_verify(&t2, &PasetoAsymmetricPublicKey::<V2, Public>::from(nk), None).is_ok() { return wit(format!("C04 v2.public token verifies under a neighbour of the signer's key (bit 0 of byte {byte} flipped) after a verification under the right key")); } } } }
+    // one builder used with key (pair) A, then with B, nothing else changed: the second token belongs to B alone
+    { let (kpa, pka) = R::ed_keypair(9); let (kpb, pkb) = R::ed_keypair(10);
+      let ska = PasetoAsymmetricPrivateKey::<V4, Public>::from(lkv(Key::<64>::from(kpa))); let skb = PasetoAsymmetricPrivateKey::<V4, Public>::from(lkv(Key::<64>::from(kpb)));
+      let pa = lkv(PasetoAsymmetricPublicKey::<V4, Public>::from(lkv(Key::<32>::from(pka)))); let pb = lkv(PasetoAsymmetricPublicKey::<V4, Public>::from(lkv(Key::<32>::from(pkb))));
+      for layer in 0..3 {
+        let (t1, t2) = match layer { 0 => { let mut b = GenericBuilder::<V4, Public>::default(); b.set_claim(AudienceClaim::from("a")); (b.try_sign(&ska).ok(), b.try_sign(&skb).ok()) }
+                                     1 => { let mut b = PasetoBuilder::<V4, Public>::default(); (b.build(&ska).ok(), b.build(&skb).ok()) }
+                                     _ => { let mut b = Paseto::<V4, Public>::builder(); b.set_payload(Payload::from("{\"a\":1}")); (b.try_sign(&ska).ok(), b.try_sign(&skb).ok()) } };
+        let name = ["GenericBuilder", "PasetoBuilder", "core builder"][layer];
+        if let (Some(_), Some(t2)) = (t1, t2) { let t2 = lk(&t2);
+            let under_a = Paseto::<V4, Public>::try_verify(t2, pa, None, None).is_ok(); let under_b = Paseto::<V4, Public>::try_verify(t2, pb, None, None).is_ok();
+            if under_a || !under_b { return wit(format!("C04 one {name}<V4,Public> signs with key pair A and then with key pair B: the second token verifies under A's public key = {under_a}, under B's = {under_b} (must be false, true)")); } } }
+      let (k1, k2) = (lkv(PasetoSymmetricKey::<V4, Local>::from(key32(1))), lkv(PasetoSymmetricKey::<V4, Local>::from(key32(2))));
+      for layer in 0..2 { let t2 = if layer == 0 { let mut b = GenericBuilder::<V4, Local>::default(); b.set_claim(AudienceClaim::from("a")); let _ = b.try_encrypt(k1); b.try_encrypt(k2).ok() } else { let mut b = PasetoBuilder::<V4, Local>::default(); let _ = b.build(k1); b.build(k2).ok() };
+        if let Some(t2) = t2 { let t2 = lk(&t2); let u1 = Paseto::<V4, Local>::try_decrypt(t2, k1, None, None).is_ok(); let u2 = Paseto::<V4, Local>::try_decrypt(t2, k2, None, None).is_ok();
+            if u1 || !u2 { return wit(format!("C04 one {}<V4,Local> encrypts under K1 and then under K2: the second token decrypts under K1 = {u1}, under K2 = {u2} (must be false, true)", if layer == 0 { "GenericBuilder" } else { "PasetoBuilder" })); } } } }
     // several local keys in one process, in both orders (derived-key caches)
     for v in 1..=4u8 { let ta = local::enc(v, 1, 2, "{\"a\":1}", &None, &None, false).unwrap_or_default(); let tb = local::enc(v, 9, 2, "{\"a\":1}", &None, &None, false).unwrap_or_default();
         for (tok, own, other) in [(&ta, 1u8, 9u8), (&tb, 9, 1), (&ta, 1, 9)] { if local::dec(v, own, tok, &None, &None).is_err() { return wit(format!("C01 v{v}.local token does not decrypt under its own key [7,{own},..] after other keys were used in the process")); }
@@ -321,7 +355,7 @@ fn parser_history(pid: &str) {
     type G = GenericParser<'static, 'static, V4, Local>;
     fn rej(_k: &str, _v: &serde_json::Value) -> Result<(), PasetoClaimError> { RUNS.fetch_add(1, Ordering::SeqCst); Err(PasetoClaimError::CustomValidation("x".into())) }
     fn acc(_k: &str, _v: &serde_json::Value) -> Result<(), PasetoClaimError> { RUNS.fetch_add(1, Ordering::SeqCst); Ok(()) }
-    fn bulk(k: &str, v: serde_json::Value) -> HashMap<String, Box<dyn erased_serde::Serialize>> { let mut m: HashMap<String, Box<dyn erased_serde::Serialize>> = HashMap::new(); m.insert(k.to_string(), Box::new(v)); m }
+    fn bulk(k: &str, v: serde_json::Value) -> HashMap<String, Box<dyn erased_serde::Serialize>> { let mut m: HashMap<String, Box<dyn erased_serde::Serialize>> = HashMap::new(); m.insert(k.to_string(), Box::new(CustomClaim::try_from((k.to_string(), v)).unwrap())); m }   // the bulk form takes claim objects, as check_claim stores them
     let claim_steps: Vec<(&str, Box<dyn Fn(&mut G)>)> = vec![
         ("check_claim(aud=x)", Box::new(|p: &mut G| { p.check_claim(AudienceClaim::from("x")); })),
         ("check_claim(aud=y)", Box::new(|p: &mut G| { p.check_claim(AudienceClaim::from("y")); })),
@@ -350,6 +384,14 @@ fn parser_history(pid: &str) {
         RUNS.store(0, Ordering::SeqCst); let ra = a.parse(t, key).map_err(|e| format!("{e:?}")); let runs_a = RUNS.swap(0, Ordering::SeqCst);
         let rb = b.parse(t, key).map_err(|e| format!("{e:?}")); let runs_b = RUNS.swap(0, Ordering::SeqCst);
         let desc: Vec<&str> = idx.iter().map(|&i| steps[i].0).collect();
+        if pid == "C15" {
+            // the verdict itself, from a map of the calls (the last registration of a key wins): accepted iff every expected member equals the payload's
+            let payload = serde_json::json!({"aud": "x", "n": 5, "role": "admin"});
+            let meta = [("aud", serde_json::json!("x")), ("aud", serde_json::json!("y")), ("n", serde_json::json!(5)), ("n", serde_json::json!(5)), ("n", serde_json::json!(6)), ("role", serde_json::json!("user")), ("missing", serde_json::json!(1))];
+            let mut model: std::collections::BTreeMap<&str, serde_json::Value> = Default::default(); for &i in &idx { model.insert(meta[i].0, meta[i].1.clone()); }
+            let want = model.iter().all(|(k, v)| payload.get(*k) == Some(v));
+            if rb.is_ok() != want { return wit(format!("C15 a fresh GenericParser configured with {} on payload {payload}: parse gives {:?}, but the expected claims (last registration of a key wins) are {:?}, so it must {}", desc.join(", "), rb.map(|_| "Ok"), model, if want { "accept" } else { "reject" })); }
+        }
         if ra.is_ok() != rb.is_ok() || (pid == "C16" && ra.is_ok() && runs_a != runs_b) {
             return wit(format!("{pid} GenericParser configured with {} on payload {{aud:x, n:5, role:admin}}: a fresh parser gives {:?} ({runs_b} validator call(s)); the same configuration applied to a parser that parsed the token after every step gives {:?} ({runs_a} validator call(s))", desc.join(", "), rb.map(|_| "Ok"), ra.map(|_| "Ok"))); }
     }}
@@ -467,6 +509,14 @@ fn c06() {
         if let Ok(t) = local::enc(v, 1, 2, "{\"a\":1}", &None, &Some(a.clone()), false) {
             if l > 0 && local::dec(v, 1, &t, &None, &Some(b)).is_ok() { return wit(format!("C06 v{v}.local token built with a {l}-byte assertion is accepted with another assertion of the same length (last byte differs)")); }
             if local::dec(v, 1, &t, &None, &Some(format!("{a}x"))).is_ok() || (l > 0 && local::dec(v, 1, &t, &None, &Some(a[..l - 1].to_string())).is_ok()) { return wit(format!("C06 v{v}.local token built with a {l}-byte assertion is accepted with an assertion one byte longer / shorter")); } } } }
+    // v4.public at the core layer: footer absent or present x assertion pairs, both call forms of "no footer"
+    { let (kp, pk) = R::ed_keypair(9); let k64 = lkv(Key::<64>::from(kp)); let k32 = lkv(Key::<32>::from(pk)); let sk = PasetoAsymmetricPrivateKey::<V4, Public>::from(k64); let pkk = PasetoAsymmetricPublicKey::<V4, Public>::from(k32);
+      for f in [None, Some("ft")] { for i in ias.iter().take(7) { for i2 in ias.iter().take(7) {
+        let mut b = Paseto::<V4, Public>::builder(); b.set_payload(Payload::from("{\"a\":1}")); if let Some(f) = f { b.set_footer(Footer::from(f)); } if let Some(i) = i { b.set_implicit_assertion(ImplicitAssertion::from(lk(i))); }
+        let t = match b.try_sign(&sk) { Ok(t) => t, Err(_) => continue };
+        let same = i.as_deref().unwrap_or("") == i2.as_deref().unwrap_or("");
+        let r = Paseto::<V4, Public>::try_verify(&t, &pkk, f.map(Footer::from), i2.as_deref().map(|x| ImplicitAssertion::from(lk(x))));
+        if r.is_ok() != same { return wit(format!("C06 v4.public token built with footer {f:?} and assertion {i:?}, verified with footer {f:?} and assertion {i2:?} -> {:?} (must {})", r.map_err(|e| format!("{e:?}")), if same { "succeed" } else { "fail" })); } } } } }
     layers_roundtrip(); layer_setter_orders("C06");
     // second build from the same core builder keeps the assertion
     for v in 3..=4u8 { if let Ok(t) = local::enc(v, 1, 2, "{}", &None, &Some("ia".into()), true) { if local::dec(v, 1, &t, &None, &Some("ia".into())).is_err() { return wit(format!("C06 v{v}.local: second try_encrypt from one builder lost the implicit assertion (token {t})")); } } }
@@ -534,6 +584,17 @@ fn c08() {
             match b.try_sign(&PasetoAsymmetricPrivateKey::<V2, Public>::from(k64)) { Ok(t) if t == want => {}, o => return wit(format!("C08 v2.public token differs from the specification for message len {} footer {:?}", m.len(), f)) }
         }
     }}}
+    // reused builders at every layer: the footer (and assertion) in force is the LAST one set - incl. the empty one - and the token is the specification's for it
+    { let claims_payload = "{\"aud\":\"a\"}";
+      for seq in [vec!["x", ""], vec!["", "x"], vec!["x", "y"], vec!["x", "", "y"], vec!["x", "y", ""], vec![""], vec!["x", "x"]] { let last = *seq.last().unwrap();
+        let want = R::ed_sign(&kp, "v4.public.", claims_payload.as_bytes(), last.as_bytes(), Some(b""));
+        let mut g = GenericBuilder::<V4, Public>::default(); g.set_claim(AudienceClaim::from("a")); for f in &seq { g.set_footer(Footer::from(*f)); }
+        match g.try_sign(&PasetoAsymmetricPrivateKey::<V4, Public>::from(k64)) { Ok(t) if t == want => {}, o => return wit(format!("C08 GenericBuilder<V4,Public> after set_footer calls {seq:?}: token {o:?}, the specification's token for footer {last:?} is {want}")) }
+        let mut c = Paseto::<V4, Public>::builder(); c.set_payload(Payload::from(claims_payload)); for f in &seq { c.set_footer(Footer::from(*f)); }
+        match c.try_sign(&PasetoAsymmetricPrivateKey::<V4, Public>::from(k64)) { Ok(t) if t == want => {}, o => return wit(format!("C08 core v4.public builder after set_footer calls {seq:?}: token {o:?}, the specification's token for footer {last:?} is {want}")) }
+        let want_i = R::ed_sign(&kp, "v4.public.", claims_payload.as_bytes(), b"ft", Some(last.as_bytes()));
+        let mut g = GenericBuilder::<V4, Public>::default(); g.set_claim(AudienceClaim::from("a")); g.set_footer(Footer::from("ft")); for i in &seq { g.set_implicit_assertion(ImplicitAssertion::from(*i)); }
+        match g.try_sign(&PasetoAsymmetricPrivateKey::<V4, Public>::from(k64)) { Ok(t) if t == want_i => {}, o => return wit(format!("C08 GenericBuilder<V4,Public> after set_implicit_assertion calls {seq:?}: token {o:?}, the specification's token for assertion {last:?} is {want_i}")) } } }
 }
 fn no_panic<F: FnOnce() -> R + std::panic::UnwindSafe, R>(f: F) -> bool { catch_unwind(f).is_ok() }
 #[cfg(feature = "main_set")]
@@ -571,6 +632,14 @@ fn c09() {
         let (t, key) = v4tok(&format!("{{\"{claim}\":\"{val}\"}}"));
         if !no_panic(AssertUnwindSafe(|| { let _ = PasetoParser::<V4, Local>::default().parse(lk(&t), key); })) { return wit(format!("C09 PasetoParser::<V4,Local>::parse panics on an authentic token whose {claim} is {val:?}")); }
         if !no_panic(AssertUnwindSafe(|| { let _ = GenericParser::<V4, Local>::default().parse(lk(&t), key); })) { return wit(format!("C09 GenericParser::<V4,Local>::parse panics on an authentic token whose {claim} is {val:?}")); } } }
+    // authentic tokens whose payload is not a JSON object (what a bare core builder produces), presented to the parser layers
+    for pl in ["", " ", "\n", "\t \n", "[]", "1", "null", "\"x\"", "{", "}", "{\"a\":", "\u{feff}", "\u{feff}{}", " {}", "{} ", "\0", "\u{20ac}"] {
+        let (t, key) = v4tok(pl);
+        if !no_panic(AssertUnwindSafe(|| { let _ = PasetoParser::<V4, Local>::default().parse(lk(&t), key); })) { return wit(format!("C09 PasetoParser::<V4,Local>::parse panics on an authentic token whose payload is {pl:?}")); }
+        if !no_panic(AssertUnwindSafe(|| { let _ = GenericParser::<V4, Local>::default().parse(lk(&t), key); })) { return wit(format!("C09 GenericParser::<V4,Local>::parse panics on an authentic token whose payload is {pl:?}")); }
+        let (kp, pk) = R::ed_keypair(9); let k64 = lkv(Key::<64>::from(kp)); let k32 = lkv(Key::<32>::from(pk)); let mut b = Paseto::<V4, Public>::builder(); b.set_payload(Payload::from(lk(pl)));
+        if let Ok(tp) = b.try_sign(&PasetoAsymmetricPrivateKey::<V4, Public>::from(k64)) { let tp = lk(&tp); let pkk = lkv(PasetoAsymmetricPublicKey::<V4, Public>::from(k32));
+            if !no_panic(AssertUnwindSafe(|| { let _ = PasetoParser::<V4, Public>::default().parse(tp, pkk); let _ = GenericParser::<V4, Public>::default().parse(tp, pkk); })) { return wit(format!("C09 the v4.public parsers panic on an authentic token whose payload is {pl:?}")); } } }
     // expected footer longer / shorter than the presented segment, multi-byte text in the footer segment
     for fseg in ["", "A", "Zm9", "Zm9v", "Zm9vYmFy", "\u{20ac}", "Z\u{20ac}", "Zm\u{e9}v", "=", "===="] { for exp_f in ["foo", "f", "foobarbaz", "\u{20ac}"] { let s = format!("v4.local.{}.{fseg}", R::b64(&[0u8; 70]));
         if !no_panic(AssertUnwindSafe(|| { let _ = Paseto::<V4, Local>::try_decrypt(&s, &PasetoSymmetricKey::<V4, Local>::from(key32(1)), Some(Footer::from(exp_f)), None); let mut p = PasetoParser::<V4, Local>::default(); p.set_footer(Footer::from(exp_f)); let _ = p.parse(lk(&s), lkv(PasetoSymmetricKey::<V4, Local>::from(key32(1)))); })) { return wit(format!("C09 try_decrypt/parse panics on token {s:?} with expected footer {exp_f:?}")); } } }
@@ -607,6 +676,14 @@ fn c10() {
         for j in 0..$nl { if or_[j] != 255 || and_[j] != 0 { return wit(format!("C10 GenericBuilder<{},Local>: nonce byte {j} has constant bits over 300 builds (or={:02x} and={:02x})", stringify!($V), or_[j], and_[j])); } }
         let mut pb = PasetoBuilder::<$V, Local>::default(); let t1 = pb.build(&key).unwrap_or_default(); let t2 = pb.build(&key).unwrap_or_default();
         if t1 == t2 { return wit(format!("C10 PasetoBuilder<{},Local>: two builds give the same token", stringify!($V))); }
+        // 80 builds from ONE reused builder (generic, then batteries-included): no nonce bit may be constant (chance of a false report 2^-71)
+        for layer in 0..2 { let mut or_ = vec![0u8; $nl]; let mut and_ = vec![255u8; $nl]; let mut seen = HashSet::new();
+            let mut gb = GenericBuilder::<$V, Local>::default(); gb.set_claim(AudienceClaim::from("a")); let mut pb = PasetoBuilder::<$V, Local>::default();
+            for k in 0..80 { let t = if layer == 0 { gb.try_encrypt(&key).unwrap_or_default() } else { pb.build(&key).unwrap_or_default() };
+                let d = R::unb64(t.split('.').nth(2).unwrap_or("")).unwrap_or_default(); if d.len() < $nl { return wit(format!("C10 build #{k} from a reused builder failed or is too short")); }
+                for j in 0..$nl { or_[j] |= d[j]; and_[j] &= d[j]; }
+                if !seen.insert(d[..$nl].to_vec()) { return wit(format!("C10 {}<{},Local>: build #{k} from one reused builder repeats a nonce", if layer == 0 { "GenericBuilder" } else { "PasetoBuilder" }, stringify!($V))); } }
+            for j in 0..$nl { if or_[j] != 255 || and_[j] != 0 { return wit(format!("C10 {}<{},Local>: over 80 builds from ONE reused builder nonce byte {j} has constant bits (or={:02x} and={:02x}): the nonces are not independent draws", if layer == 0 { "GenericBuilder" } else { "PasetoBuilder" }, stringify!($V), or_[j], and_[j])); } } }
     }} }
     go!(V1, 32); go!(V2, 24); go!(V3, 32); go!(V4, 32);
     // builds on several threads
@@ -773,16 +850,16 @@ fn c14() {
     { let mut b = GenericBuilder::<V4, Local>::default(); for k in ["Data", "data", "DATA", "Sub"] { b.set_claim(CustomClaim::try_from((k, 1)).unwrap()); } b.set_claim(SubjectClaim::from("s")); b.remove_claim("data");
       if let Ok(t) = b.try_encrypt(&key) { match GenericParser::<V4, Local>::default().parse(lk(&t), key) { Ok(j) => { if j != json!({"Data": 1, "DATA": 1, "Sub": 1, "sub": "s"}) { return wit(format!("C14 claims Data, data, DATA, Sub, sub were set and only `data` removed, but the parsed token holds {j}")); } } Err(e) => return wit(format!("C14 parse failed after remove_claim: {e}")) } } }
     claims_between_builds("C14"); case_variant_claims("C14");
-    // model-based: every sequence up to length 5 over {set(a,1), set(a,2), set(b,1), remove(a), remove(b), build} against a map
-    { let ops = 6usize; for len in 1..=5u32 { for code in 0..ops.pow(len) {
-        let mut b = GenericBuilder::<V4, Local>::default(); let mut model: std::collections::BTreeMap<&str, i64> = Default::default(); let mut c = code; let mut desc = Vec::new();
+    // model-based: every sequence up to length 4 over {set(a,1), set(a,2), set(b,1), set(a,{x:1,y:2}), set(a,{x:3}), set(a,{}), remove(a), remove(b), build} (and length 5 without the object values) against a map
+    { use serde_json::Value; let vals: Vec<(&str, &str, Value)> = vec![("a", "set(a,1)", json!(1)), ("a", "set(a,2)", json!(2)), ("b", "set(b,1)", json!(1)), ("a", "set(a,{x:1,y:2})", json!({"x": 1, "y": 2})), ("a", "set(a,{x:3})", json!({"x": 3})), ("a", "set(a,{})", json!({}))];
+      for (ops, maxlen, sets) in [(9usize, 4u32, 6usize), (6, 5, 3)] { for len in 1..=maxlen { for code in 0..ops.pow(len) {
+        let mut b = GenericBuilder::<V4, Local>::default(); let mut model: std::collections::BTreeMap<&str, Value> = Default::default(); let mut c = code; let mut desc = Vec::new();
         for _ in 0..len { let op = c % ops; c /= ops;
-            match op { 0 => { b.set_claim(CustomClaim::try_from(("a", 1)).unwrap()); model.insert("a", 1); desc.push("set(a,1)"); } 1 => { b.set_claim(CustomClaim::try_from(("a", 2)).unwrap()); model.insert("a", 2); desc.push("set(a,2)"); }
-                       2 => { b.set_claim(CustomClaim::try_from(("b", 1)).unwrap()); model.insert("b", 1); desc.push("set(b,1)"); } 3 => { b.remove_claim("a"); model.remove("a"); desc.push("remove(a)"); }
-                       4 => { b.remove_claim("b"); model.remove("b"); desc.push("remove(b)"); } _ => { let _ = b.try_encrypt(&key); desc.push("build"); } } }
+            if op < sets { let (k, d, v) = &vals[op]; b.set_claim(CustomClaim::try_from((*k, v.clone())).unwrap()); model.insert(k, v.clone()); desc.push(*d); }
+            else if op == sets { b.remove_claim("a"); model.remove("a"); desc.push("remove(a)"); } else if op == sets + 1 { b.remove_claim("b"); model.remove("b"); desc.push("remove(b)"); } else { let _ = b.try_encrypt(&key); desc.push("build"); } }
         let want = serde_json::to_value(&model).unwrap();
         match b.try_encrypt(&key) { Ok(t) => match GenericParser::<V4, Local>::default().parse(lk(&t), key) { Ok(j) => { if j != want { return wit(format!("C14 GenericBuilder after {} then build: the parsed token holds {j}, a map of the calls gives {want}", desc.join(", "))); } } Err(e) => return wit(format!("C14 parse failed after {}: {e}", desc.join(", "))) },
-            Err(e) => return wit(format!("C14 build failed after {}: {e}", desc.join(", "))) } } } }
+            Err(e) => return wit(format!("C14 build failed after {}: {e}", desc.join(", "))) } } } } }
     // two keys that differ only by an invisible code point stay two members
     { let mut b = GenericBuilder::<V4, Local>::default(); b.set_claim(CustomClaim::try_from(("dup", 1)).unwrap()); b.set_claim(CustomClaim::try_from(("dup\u{feff}", 2)).unwrap());
       if let Ok(t) = b.try_encrypt(&key) { match GenericParser::<V4, Local>::default().parse(lk(&t), key) { Ok(j) => { if j != json!({"dup": 1, "dup\u{feff}": 2}) { return wit(format!("C14 claims dup=1 and dup<U+FEFF>=2 were set but the parsed token holds {j}")); } } Err(e) => return wit(format!("C14 parse failed for keys differing by U+FEFF: {e}")) } } }
@@ -791,6 +868,12 @@ fn c14() {
         b.set_claim(IssuerClaim::from("first")); b.set_claim(IssuerClaim::from(val)); b.set_claim(TokenIdentifierClaim::from(val)); b.set_claim(SubjectClaim::from(val)); b.set_claim(AudienceClaim::from(val));
         b.set_claim(ExpirationClaim::try_from("2999-01-01T00:00:00Z").unwrap()); b.set_claim(NotBeforeClaim::try_from("2000-01-01T00:00:00.5+01:00").unwrap()); b.set_claim(IssuedAtClaim::try_from("2000-01-01T00:00:00Z").unwrap());
         if let Ok(t) = b.try_encrypt(&key) { match GenericParser::<V4, Local>::default().parse(lk(&t), key) { Ok(j) => { let want = json!({"iss": val, "jti": val, "sub": val, "aud": val, "exp": "2999-01-01T00:00:00Z", "nbf": "2000-01-01T00:00:00.5+01:00", "iat": "2000-01-01T00:00:00Z"}); if j != want { return wit(format!("C14 registered claims set through their typed constructors {want} but the parsed token holds {j}")); } } Err(e) => return wit(format!("C14 parse failed for registered claims with value {val:?}: {e}")) } } }
+    // whatever text a time-claim constructor accepts is what the token carries (both constructor forms)
+    for val in ["2039-01-01T00:00:00Z ", "2039-01-01T00:00:00Z\u{2003}(UTC)\u{2003}", "2039-01-01T00:00:00Z\n", "2039-01-01T00:00:00+00:00 trailing", "2039-01-01T00:00:00.50Z", "2039-01-01t00:00:00z"] {
+        macro_rules! tc { ($T:ident, $k:expr) => {{ for form in 0..2 { let c = if form == 0 { $T::try_from(lk(val)).ok() } else { $T::try_from(val.to_string()).ok() };
+            if let Some(c) = c { let mut b = GenericBuilder::<V4, Local>::default(); b.set_claim(c);
+                if let Ok(t) = b.try_encrypt(&key) { match GenericParser::<V4, Local>::default().parse(lk(&t), key) { Ok(j) => { if j[$k] != val { return wit(format!("C14 {}::try_from({} {val:?}) is accepted, but the token carries {} = {} instead of the text that was set", stringify!($T), if form == 0 { "&str" } else { "String" }, $k, j[$k])); } } Err(e) => return wit(format!("C14 parse failed for {} = {val:?}: {e}", $k)) } } } } }} }
+        tc!(ExpirationClaim, "exp"); tc!(NotBeforeClaim, "nbf"); tc!(IssuedAtClaim, "iat"); }
     { let mut b = GenericBuilder::<V4, Local>::default(); b.set_claim(IssuerClaim::default()); b.set_claim(TokenIdentifierClaim::default()); b.set_claim(SubjectClaim::default()); b.set_claim(AudienceClaim::default());
       if let Ok(t) = b.try_encrypt(&key) { match GenericParser::<V4, Local>::default().parse(lk(&t), key) { Ok(j) => { let o = j.as_object().cloned().unwrap_or_default(); let mut ks: Vec<&str> = o.keys().map(|k| k.as_str()).collect(); ks.sort(); if ks != ["aud", "iss", "jti", "sub"] { return wit(format!("C14 default registered claims do not appear under their registered keys: {j}")); } } Err(e) => return wit(format!("C14 parse failed for default registered claims: {e}")) } } }
     for vv in 1..=3u8 { let m = "{\"name\":\"Zo\u{eb} M\u{fc}ller\",\"\u{e9}\":\"\u{1F511}\"}"; if let Ok(t) = local::enc(vv, 1, 2, m, &None, &None, false) { if local::dec(vv, 1, &t, &None, &None).ok().as_deref() != Some(m) { return wit(format!("C14 v{vv}.local payload with non-ASCII text does not come back unchanged")); } } }
@@ -825,6 +908,14 @@ fn c15() {
         exp!("scope=\"\" (token has scope=admin)", CustomClaim::try_from(("scope", "")).unwrap(), false);
         exp!("empty=\"\" (token has empty=\"\")", CustomClaim::try_from(("empty", "")).unwrap(), true);
         exp!("missing=\"\" (absent)", CustomClaim::try_from(("missing", "")).unwrap(), false); } }
+    // an expected claim registered through <typed claim>::default() concerns that claim's registered key (value "")
+    { for (k, others) in [("jti", ["iss", "sub", "aud"]), ("iss", ["jti", "sub", "aud"]), ("sub", ["jti", "iss", "aud"]), ("aud", ["jti", "iss", "sub"])] {
+        let t_has = v4tok(&format!("{{\"{k}\":\"\"}}")).0; let t_lacks = v4tok(&format!("{{\"{}\":\"\",\"{}\":\"\",\"{}\":\"\"}}", others[0], others[1], others[2])).0;
+        for layer in 0..2 { macro_rules! run { ($tok:expr) => {{ if layer == 0 { let mut p = GenericParser::<V4, Local>::default(); match k { "jti" => { p.check_claim(TokenIdentifierClaim::default()); } "iss" => { p.check_claim(IssuerClaim::default()); } "sub" => { p.check_claim(SubjectClaim::default()); } _ => { p.check_claim(AudienceClaim::default()); } } p.parse(lk($tok), key).map(|_| ()).map_err(|e| format!("{e:?}")) }
+                                                        else { let mut p = PasetoParser::<V4, Local>::default(); match k { "jti" => { p.check_claim(TokenIdentifierClaim::default()); } "iss" => { p.check_claim(IssuerClaim::default()); } "sub" => { p.check_claim(SubjectClaim::default()); } _ => { p.check_claim(AudienceClaim::default()); } } p.parse(lk($tok), key).map(|_| ()).map_err(|e| format!("{e:?}")) } }} }
+            let (a, b) = (run!(&t_has), run!(&t_lacks)); let name = if layer == 0 { "GenericParser" } else { "PasetoParser" };
+            if a.is_err() { return wit(format!("C15 {name} expecting the default {k} claim (value \"\") rejects a token whose payload is {{{k}: \"\"}}: {a:?}")); }
+            if b.is_ok() { return wit(format!("C15 {name} expecting the default {k} claim accepts a token that has no {k} member (it has {others:?} = \"\")")); } } } }
     { let t_null = v4tok("{\"nickname\":null,\"aud\":\"x\"}").0;
       for layer in 0..2 { let r = if layer == 0 { let mut p = GenericParser::<V4, Local>::default(); p.check_claim(CustomClaim::try_from(("nickname", None::<String>)).unwrap()); p.parse(lk(&t_null), key).is_ok() } else { let mut p = PasetoParser::<V4, Local>::default(); p.check_claim(CustomClaim::try_from(("nickname", None::<String>)).unwrap()); p.parse(lk(&t_null), key).is_ok() };
           if r { return wit(format!("C15 {} expecting nickname (value null) accepts a token whose nickname is an explicit JSON null: a null claim is not present", if layer == 0 { "GenericParser" } else { "PasetoParser" })); }
@@ -932,6 +1023,14 @@ fn c16() {
       let mut bad = t.clone(); bad.pop(); bad.push('A'); let _ = p.parse(lk(&bad), key); let wrong = lkv(PasetoSymmetricKey::<V4, Local>::from(key32(9))); let _ = p.parse(lk(&t), wrong);
       if CALLS.load(Ordering::SeqCst) != 0 { return wit("C16 a validator ran on a token that did not authenticate".into()); }
       let _ = p.parse(lk(&t), key); if CALLS.load(Ordering::SeqCst) != 1 { return wit(format!("C16 accepting validator ran {} times on a successful parse", CALLS.load(Ordering::SeqCst))); } }
+    // a token bound to footer "ft" and assertion "ia" presented to parsers configured with near misses of either: no validator call, no success
+    { let mut b = GenericBuilder::<V4, Local>::default(); b.set_claim(SubjectClaim::from("alice")); b.set_footer(Footer::from("ft")); b.set_implicit_assertion(ImplicitAssertion::from("ia"));
+      if let Ok(tb) = b.try_encrypt(key) { let tb = lk(&tb);
+        for (f2, i2) in [("ft", " ia"), ("ft", "ia "), ("ft", "ia\n"), ("ft", "IA"), ("ft", ""), ("ft", "\tia"), (" ft", "ia"), ("ft ", "ia"), ("ft\n", "ia"), ("FT", "ia"), ("ft", "ia\u{a0}"), ("ft\u{feff}", "ia")] {
+          for layer in 0..2 { CALLS.store(0, Ordering::SeqCst);
+            let ok = if layer == 0 { let mut p = GenericParser::<V4, Local>::default(); p.validate_claim(SubjectClaim::from("alice"), &accept); p.set_footer(Footer::from(lk(f2))); p.set_implicit_assertion(ImplicitAssertion::from(lk(i2))); p.parse(tb, key).is_ok() }
+                     else { let mut p = PasetoParser::<V4, Local>::default(); p.validate_claim(SubjectClaim::from("alice"), &accept); p.set_footer(Footer::from(lk(f2))); p.set_implicit_assertion(ImplicitAssertion::from(lk(i2))); p.parse(tb, key).is_ok() };
+            if ok || CALLS.load(Ordering::SeqCst) != 0 { return wit(format!("C16 {}<V4,Local>: a token bound to footer \"ft\" and assertion \"ia\", parser configured with footer {f2:?} and assertion {i2:?}: accepted = {ok}, validator ran {} time(s) (must not authenticate, no validator may run)", if layer == 0 { "GenericParser" } else { "PasetoParser" }, CALLS.load(Ordering::SeqCst))); } } } } }
     // a token whose header names another protocol has not authenticated for this parser: no validator call, no success
     { let ts = v4tok("{\"sub\":\"alice\"}").0;
       for other in ["v3.local.", "v2.local.", "v1.local.", "v4.public.", "v2.public.", "v5.local.", "v4.loca1.", "V4.local."] { let tt = lk(&ts.replacen("v4.local.", other, 1));
@@ -986,12 +1085,29 @@ fn c17() {
                 3 => { b.set_claim(SubjectClaim::from("s")); if !seen.insert(3) { dup = true; } }
                 4 => { b.set_no_expiration_danger_acknowledged(); }
                 5 => { b.set_footer(Footer::from("ft")); }
-                _ => { let r = b.build($key); if dup && r.is_ok() { return wit(format!("C17 PasetoBuilder<{},Local> ops {ops:?} (0=set a,1=set b,2=iss,3=sub,4=ack,5=footer,6=build): a key was supplied twice but build at step {ix} returned a token", stringify!($V))); }
+                _ => { let r = b.build($key);
+                       if let Err(GenericBuilderError::DuplicateTopLevelPayloadClaim(k)) = &r { let names = ["a", "b", "iss", "sub"]; let dups: Vec<&str> = (0..4).filter(|i| ops[..ix].iter().filter(|o| **o == *i as u8).count() > 1).map(|i| names[i]).collect();
+                           if dup && !dups.contains(&k.as_str()) { return wit(format!("C17 PasetoBuilder<{},Local> ops {ops:?} (0=set a,1=set b,2=iss,3=sub,4=ack,5=footer,6=build): the duplicate-claim error at step {ix} names {k:?}, but the keys supplied more than once are {dups:?}", stringify!($V))); } }
+                       if dup && r.is_ok() { return wit(format!("C17 PasetoBuilder<{},Local> ops {ops:?} (0=set a,1=set b,2=iss,3=sub,4=ack,5=footer,6=build): a key was supplied twice but build at step {ix} returned a token", stringify!($V))); }
                        if !dup { if let Err(e) = r { return wit(format!("C17 PasetoBuilder<{},Local> ops {ops:?}: no repeated key but build failed: {e}", stringify!($V))); } } }
             } }
         }} }
         if ver == 4 { run!(V4, &key) } else if s.len() <= 4 { run!(V3, &key3) }
     }}
+    // every top-level key, the patterns that matter: K K build / K build K build / K other build K build build / K other build (fine)
+    let far = "2999-01-01T00:00:00Z";
+    let setk = |b: &mut PasetoBuilder<V4, Local>, k: &str, n: u64| { match k { "exp" => { b.set_claim(ExpirationClaim::try_from(far).unwrap()); } "nbf" => { b.set_claim(NotBeforeClaim::try_from("2000-01-01T00:00:00Z").unwrap()); } "iat" => { b.set_claim(IssuedAtClaim::try_from("2000-01-01T00:00:00Z").unwrap()); }
+        "iss" => { b.set_claim(IssuerClaim::from("i")); } "sub" => { b.set_claim(SubjectClaim::from("s")); } "aud" => { b.set_claim(AudienceClaim::from("a")); } "jti" => { b.set_claim(TokenIdentifierClaim::from("j")); } other => { b.set_claim(CustomClaim::try_from((other.to_string(), n)).unwrap()); } } };
+    for k in ["exp", "nbf", "iat", "iss", "sub", "aud", "jti", "a", "b"] { for other in ["iss", "jti", "b", "exp"] { if other == k { continue; }
+        for pat in [vec!["K", "K", "B"], vec!["K", "B", "K", "B"], vec!["K", "O", "B", "K", "B", "B"], vec!["K", "K", "O", "B"], vec!["O", "K", "B", "O", "B"], vec!["K", "O", "B"], vec!["K", "B", "O", "B"]] {
+            let mut b = PasetoBuilder::<V4, Local>::default(); let mut count: std::collections::HashMap<&str, u32> = Default::default(); let mut n = 0u64;
+            for (ix, st) in pat.iter().enumerate() { match *st { "K" => { setk(&mut b, k, n); *count.entry(k).or_default() += 1; n += 1; } "O" => { setk(&mut b, other, n); *count.entry(other).or_default() += 1; n += 1; }
+                _ => { let dups: Vec<&str> = count.iter().filter(|(_, c)| **c > 1).map(|(k, _)| *k).collect(); let r = b.build(&key);
+                       let desc = pat.iter().map(|s| match *s { "K" => format!("set_claim({k})"), "O" => format!("set_claim({other})"), _ => "build".to_string() }).collect::<Vec<_>>().join(", ");
+                       match r { Ok(_) => { if !dups.is_empty() { return wit(format!("C17 PasetoBuilder<V4,Local>: {desc}: the build at step {ix} returns a token although {dups:?} was supplied more than once")); } }
+                                 Err(GenericBuilderError::DuplicateTopLevelPayloadClaim(named)) => { if dups.is_empty() { return wit(format!("C17 PasetoBuilder<V4,Local>: {desc}: no key was supplied twice but the build at step {ix} reports a duplicate of {named:?}")); }
+                                     if !dups.contains(&named.as_str()) { return wit(format!("C17 PasetoBuilder<V4,Local>: {desc}: the duplicate-claim error at step {ix} names {named:?}, the repeated key(s) are {dups:?}")); } }
+                                 Err(e) => { return wit(format!("C17 PasetoBuilder<V4,Local>: {desc}: the build at step {ix} fails with {e:?}, not a duplicate-claim error")); } } } } } } } }
 }
 #[cfg(feature = "main_set")]
 fn c17_time_claims() {
@@ -1030,7 +1146,8 @@ fn c18() {
         let r1 = CustomClaim::try_from(k.as_str()).is_err(); let r2 = CustomClaim::try_from((k.as_str(), 1)).is_err(); let r3 = CustomClaim::try_from((k.clone(), "v")).is_err();
         if r1 != must_fail || r2 != must_fail || r3 != must_fail { return wit(format!("C18 CustomClaim with key {k:?}: rejected by (&str, (&str,T), (String,T)) constructors = ({r1},{r2},{r3}) but reserved = {must_fail}")); } }
     let good = ["2019-01-01T00:00:00Z", "2019-01-01T00:00:00+00:00", "2039-12-31T23:59:59.123456789Z", "2019-01-01T00:00:00.5-23:59", "1971-06-01T12:00:00+05:30",
-                "2019-01-01T00:00:00.1234567+01:00", "2019-01-01T00:00:00.123456789+01:00", "2019-01-01T00:00:00.123456789-11:30", "9999-12-31T23:59:59Z", "0001-01-01T00:00:00Z", "2020-02-29T23:59:59Z", "2019-01-01T00:00:00.000000000Z"];
+                "2019-01-01T00:00:00.1234567+01:00", "2019-01-01T00:00:00.123456789+01:00", "2019-01-01T00:00:00.123456789-11:30", "9999-12-31T23:59:59Z", "0001-01-01T00:00:00Z", "2020-02-29T23:59:59Z", "2019-01-01T00:00:00.000000000Z",
+                "1990-12-31T23:59:60Z", "2016-12-31T23:59:60+00:00", "1998-12-31T23:59:60.5Z", "2015-06-30T23:59:60-00:00", "2000-02-29T12:00:00Z", "2019-01-01T00:00:00+23:59"];
     let bad = ["", "hello", " 2019-01-01T00:00:00Z", "x2019-01-01T00:00:00Z", "T00:00:00Z", "12345", "tomorrow"];
     for g in good {
         macro_rules! chk { ($T:ident) => {{ match $T::try_from(g) { Ok(c) => { use rusty_paseto::generic::PasetoClaim; let j = serde_json::to_value(&c).unwrap(); if j[c.get_key()] != g { return wit(format!("C18 {}::try_from({g:?}) does not keep the text verbatim: {j}", stringify!($T))); } } Err(e) => return wit(format!("C18 {}::try_from({g:?}) rejects an RFC 3339 date-time: {e}", stringify!($T))) }
@@ -1246,6 +1363,21 @@ fn layer_matrix(pid: &str) {
                                    3 => { let k = lkv(PasetoSymmetricKey::<V3, Local>::from(key32(1))); (GenericParser::<V3, Local>::default().parse(tt, k).is_ok(), PasetoParser::<V3, Local>::default().parse(tt, k).is_ok()) }
                                    _ => { let k = lkv(PasetoSymmetricKey::<V4, Local>::from(key32(1))); (GenericParser::<V4, Local>::default().parse(tt, k).is_ok(), PasetoParser::<V4, Local>::default().parse(tt, k).is_ok()) } };
             if g || p { return wit(format!("C07 authentic v{x}.local token presented {how} to the v{y}.local parsers with the same key bytes: GenericParser accepts = {g}, PasetoParser accepts = {p}")); } } } }
+        // v2.public <-> v4.public at the parser layers, same Ed25519 key bytes, verbatim and relabelled; and public tokens to the local parsers
+        { let (kp, pk) = R::ed_keypair(9); let k64 = lkv(Key::<64>::from(kp)); let k32 = lkv(Key::<32>::from(pk));
+          let mut b2 = GenericBuilder::<V2, Public>::default(); b2.set_claim(AudienceClaim::from("a")); let mut b4 = GenericBuilder::<V4, Public>::default(); b4.set_claim(AudienceClaim::from("a"));
+          let mut pb2 = PasetoBuilder::<V2, Public>::default(); let mut pb4 = PasetoBuilder::<V4, Public>::default();
+          let t2s: Vec<String> = [b2.try_sign(&PasetoAsymmetricPrivateKey::<V2, Public>::from(k64)).ok(), pb2.build(&PasetoAsymmetricPrivateKey::<V2, Public>::from(k64)).ok()].into_iter().flatten().collect();
+          let t4s: Vec<String> = [b4.try_sign(&PasetoAsymmetricPrivateKey::<V4, Public>::from(k64)).ok(), pb4.build(&PasetoAsymmetricPrivateKey::<V4, Public>::from(k64)).ok()].into_iter().flatten().collect();
+          let pk2 = lkv(PasetoAsymmetricPublicKey::<V2, Public>::from(k32)); let pk4 = lkv(PasetoAsymmetricPublicKey::<V4, Public>::from(k32));
+          for t in &t2s { for (how, tt) in [("verbatim", t.clone()), ("header rewritten", t.replacen("v2.public.", "v4.public.", 1))] { let tt = lk(&tt);
+              let (g, p) = (GenericParser::<V4, Public>::default().parse(tt, pk4).is_ok(), PasetoParser::<V4, Public>::default().parse(tt, pk4).is_ok());
+              if g || p { return wit(format!("C07 authentic v2.public token presented {how} to the v4.public parsers with the same Ed25519 key bytes: GenericParser accepts = {g}, PasetoParser accepts = {p}")); }
+              for ltok in [tt.to_string(), t.replacen("v2.public.", "v4.local.", 1)] { let ltok = lk(&ltok); let k = lkv(PasetoSymmetricKey::<V4, Local>::from(Key::<32>::from(pk)));
+                  if GenericParser::<V4, Local>::default().parse(ltok, k).is_ok() || PasetoParser::<V4, Local>::default().parse(ltok, k).is_ok() { return wit(format!("C07 v2.public token accepted by a v4.local parser keyed with the public key bytes: {ltok}")); } } } }
+          for t in &t4s { for (how, tt) in [("verbatim", t.clone()), ("header rewritten", t.replacen("v4.public.", "v2.public.", 1))] { let tt = lk(&tt);
+              let (g, p) = (GenericParser::<V2, Public>::default().parse(tt, pk2).is_ok(), PasetoParser::<V2, Public>::default().parse(tt, pk2).is_ok());
+              if g || p { return wit(format!("C07 authentic v4.public token presented {how} to the v2.public parsers with the same Ed25519 key bytes: GenericParser accepts = {g}, PasetoParser accepts = {p}")); } } } }
     }
     let (kp, pk) = R::ed_keypair(9); let (_k2, pk2) = R::ed_keypair(10); let k64 = lkv(Key::<64>::from(kp)); let k32 = lkv(Key::<32>::from(pk)); let k32b = lkv(Key::<32>::from(pk2));
     one!(V1, Local, "V1,Local", lkv(PasetoSymmetricKey::<V1, Local>::from(key32(1))), lkv(PasetoSymmetricKey::<V1, Local>::from(key32(1))), lkv(PasetoSymmetricKey::<V1, Local>::from(key32(2))), try_encrypt, false);
